@@ -478,6 +478,14 @@ def retis_cases(ctx):
                                       "e0": ens(i0, m0, sc), "e1": ens(i1, m1, (True, False)),
                                       "old0": mk_old0([1], a, b), "old1": mk_old1(-1, 1, [4]),
                                       "scripts": [good_bw, mk_script(fw, 400, 1)], "xi": Fraction(1, 2)})
+    # the witness of Infretis.C11.swap_members_maxlen_counterexample (maxlen0 > maxlen1; cannot come from a
+    # configuration file): accepted although the new [0-] path starts left of λ0
+    z = lambda o, vr=False: (o, (0, 0), vr, None)  # noqa: E731
+    cases.append({"kind": "retis", "tag": "witness-maxlen0>maxlen1",
+                  "e0": ens((-9, 0, 0), 9, (False, True)), "e1": ens((0, 1, 3), 4, (True, False)),
+                  "old0": [z(1), z(-1), z(1)], "old1": [z(-1), z(1), z(-1)],
+                  "scripts": [(None, [(-1, (0, 0), None)] * 4), (None, [(-1, (0, 0), None), (1, (0, 0), None), (1, (0, 0), None)])],
+                  "xi": Fraction(0)})
     # random: longer paths, wf moves, caps, vel_rev flags, unpadded (ending) programs, malformed input
     nrand = 15000 if quick else 200000
     for _ in range(nrand):
@@ -666,6 +674,9 @@ def check_case(ctx, c, r):
                 ctx.fail("C11:new-plus-path-not-member", f"accepted new [0+] path {[f[0] for f in r['path1']]} "
                          f"for interfaces {e1['i']} maxlen {e1['maxlen']}", rep)
             return "ACC-valid-olds"
+        if e0["maxlen"] > e1["maxlen"] and ordered(e0) and valid_minus(e0, c["old0"]) and valid_plus(e1, c["old1"]) \
+                and nondry and not valid_minus(e0, r["path0"]):
+            ctx.hit("quirk:maxlen0>maxlen1 accepts a [0-] path that never crossed (unreachable from a config file)")
         return "ACC"
     return "ACC"
 
